@@ -1,3 +1,4 @@
+CONSTANT Variant = "good"
 CONSTANT Mode = "content"
 INIT TraceInit
 NEXT TraceNext
